@@ -356,12 +356,12 @@ func init() {
 			var specs []Spec
 			for i := 0; i < 12; i++ {
 				s := d.NewSpec("sync", fmt.Sprintf("sync-%d", i), i, 16)
-				s.N = d.Pick(120, 2500)
+				s.N = d.Pick(400, 4000)
 				specs = append(specs, s)
 			}
 			for i := 0; i < 4; i++ {
 				s := d.NewSpec("e2e", fmt.Sprintf("e2e-%d", i), 50+i, 16)
-				s.N = d.Pick(3, 25)
+				s.N = d.Pick(4, 25)
 				specs = append(specs, s)
 			}
 			d.RunWorkers(specs, 16)
